@@ -112,7 +112,7 @@ PROPS["C16"] = {
     "rule": ("each run generates an upstream list of 1-4 entries of kinds {tcp, unix, tcp+tls, ws, udp}, each healthy or failing in one manner {refused, black-holed connect, accepts and stays "
              "silent, silent after the first answer, silent inside the StartTLS handshake, error status, no security while the client requires it}, a listener with forward address {absent, reachable, refused}, 1-3 concurrent local connections, then a history "
              "{none, carrier reset, silent loss, server crash+restart} followed by new local connections; non-trivial = the selection/forward/refusal outcome was judged; distinct = schedule shapes"),
-    "probes": ["failover_settled", "forward_direct", "all_failing_refused", "reconnect_ok", "loss_with_open_connections", "connections_opened_together", "insecure_upstream_skipped", "fault_carrier_reset", "fault_carrier_timeout", "fault_partition", "fault_server_restart", "client_verifies_certificates", "selected_upstream_gone_after_loss", "failover_after_selected_upstream_gone", "failover_to_differently_named_upstream", "refused_after_every_upstream_gone", "session_kept_after_reconnect"],
+    "probes": ["failover_settled", "forward_direct", "all_failing_refused", "reconnect_ok", "loss_with_open_connections", "connections_opened_together", "insecure_upstream_skipped", "fault_carrier_reset", "fault_carrier_timeout", "fault_partition", "fault_server_restart", "client_verifies_certificates", "selected_upstream_gone_after_loss", "failover_after_selected_upstream_gone", "failover_to_differently_named_upstream", "refused_after_every_upstream_gone", "session_kept_after_reconnect", "forward_direct_later"],
     "technique": "deterministic simulation: generated upstream lists x failure modes x session-loss histories, accept-log/physical-connection-count/recovery-bound oracles",
     "level_text": ("Seeded exploration. Oracles: the forward target gets the connection and no upstream is contacted when the forward address is reachable; otherwise the first healthy entry that "
                    "meets the security requirement carries the session, later entries are never contacted, exactly one physical connection exists for all concurrent logical connections, "
